@@ -240,6 +240,12 @@ func hasNilSlice(g orb.Geometry) bool {
 	return false
 }
 
+// stdJSON is a custom codec that forwards to the standard library.
+type stdJSON struct{}
+
+func (stdJSON) Marshal(v interface{}) ([]byte, error)      { return json.Marshal(v) }
+func (stdJSON) Unmarshal(data []byte, v interface{}) error { return json.Unmarshal(data, v) }
+
 func init() {
 	register("geojson", func(c *ctx) {
 		// values that every event decodes into again (a decoder loop reusing one variable), and the bytes handed out
@@ -265,6 +271,13 @@ func init() {
 		n := c.pick(4000, 80000)
 		for i := 0; i < n; i++ {
 			in := newWkbIntern()
+			// package configuration: for every fifth event the package marshals / unmarshals through a caller-supplied codec
+			// (here one that simply forwards to encoding/json): nothing observable may change
+			if i%5 == 4 {
+				geojson.CustomJSONMarshaler, geojson.CustomJSONUnmarshaler = stdJSON{}, stdJSON{}
+			} else {
+				geojson.CustomJSONMarshaler, geojson.CustomJSONUnmarshaler = nil, nil
+			}
 			switch i % 4 {
 			case 0: // bare geometry (non-empty: a top-level null is not a geometry document)
 				var g orb.Geometry
@@ -518,6 +531,7 @@ func init() {
 				c.emit(e)
 			}
 		}
+		geojson.CustomJSONMarshaler, geojson.CustomJSONUnmarshaler = nil, nil
 		// integer feature ids through BSON, which has integer types: the same integer comes back, also beyond 2^53
 		// (JSON numbers decode to float64, so such ids are outside the JSON half of the statement)
 		for i := 0; i < c.pick(200, 2000); i++ {
